@@ -147,6 +147,100 @@ func runInoTable(seed uint64, cas int, tier string) *JobRes {
 		if st.Ialloc.NumFree() != fi || st.Balloc.NumFree() != fb {
 			viol("afterfail", "round %d: refused creations changed the free counts: inodes %d -> %d, blocks %d -> %d", round, fi, st.Ialloc.NumFree(), fb, st.Balloc.NumFree())
 		}
+		// exactly one free number, warm caches: the number cycles through the
+		// kinds (directory, directory again, symbolic link, file, directory...).
+		// Every creation must succeed (one number is free) and start from a clean
+		// object: a new handle, no old size, bytes, target or entries.
+		vi := -1
+		for i, o := range objs {
+			if o.kind == OpCreate && i%3 == 1 {
+				vi = i
+				break
+			}
+		}
+		if vi >= 0 && len(out.Viol) == 0 {
+			v := objs[vi]
+			d := dirs[v.dir]
+			if r := doOp(srv.API, &Op{K: OpRemove, H: d, Name: v.name}); r.Stat != stOK {
+				viol("handle", "round %d: REMOVE %s: status %d", round, v.name, r.Stat)
+				return objs
+			}
+			X := leU64(v.fh)
+			seenFH := map[string]bool{string(v.fh): true}
+			cyc := []OpKind{OpMkdir, OpMkdir, OpSymlink, OpCreate, OpMkdir, OpSymlink, OpMkdir, OpCreate, OpCreate}
+			for ci, k := range cyc {
+				name := fmt.Sprintf("cyc%d-%d", round, ci)
+				target := fmt.Sprintf("/target/of/incarnation/%d/%s", ci, longName(30+ci*7, 't'))
+				r := doOp(srv.API, &Op{K: k, H: d, Name: name, Target: target})
+				out.Evals++
+				if r.Stat != stOK {
+					viol("handle", "round %d: exactly one inode number (%d) is free, it was last used by a %s; %s %s fails with status %d on the running server", round, X, map[bool]string{true: "regular file", false: cyc[maxInt(ci-1, 0)].String() + " object"}[ci == 0], k, name, r.Stat)
+					return objs
+				}
+				if leU64(r.FH) != X {
+					viol("handle", "round %d: the only free inode number is %d, %s returned a handle for number %d", round, X, k, leU64(r.FH))
+					return objs
+				}
+				if seenFH[string(r.FH)] {
+					viol("handle", "round %d: %s %s was given handle %x, which an earlier object of the same number had", round, k, name, r.FH)
+					return objs
+				}
+				seenFH[string(r.FH)] = true
+				ga := doOp(srv.API, &Op{K: OpGetattr, H: r.FH})
+				switch k {
+				case OpCreate:
+					rd := doOp(srv.API, &Op{K: OpRead, H: r.FH, Off: 0, Count: 8192})
+					if ga.Stat != stOK || ga.Size != 0 || rd.Stat != stOK || len(rd.Data) != 0 {
+						viol("content", "round %d: new regular file %s on the reused inode number %d: GETATTR status %d size %d, READ status %d returns %d bytes %q (the number was a %s before)", round, name, X, ga.Stat, ga.Size, rd.Stat, len(rd.Data), shortName(string(rd.Data)), cyc[maxInt(ci-1, 0)])
+						return objs
+					}
+					w := doOp(srv.API, &Op{K: OpWrite, H: r.FH, Off: 0, Count: 300, DataLen: 300, Uid: uint64(ci) + 77, Stable: 2})
+					if w.Stat != stOK && w.Stat != stNOSPC {
+						viol("handle", "round %d: WRITE to %s: status %d", round, name, w.Stat)
+					}
+				case OpSymlink:
+					rl := doOp(srv.API, &Op{K: OpReadlink, H: r.FH})
+					if rl.Stat != stOK || rl.Target != target {
+						viol("content", "round %d: READLINK of new symbolic link %s on the reused number %d: status %d target %q, want %q", round, name, X, rl.Stat, shortName(rl.Target), shortName(target))
+						return objs
+					}
+				case OpMkdir:
+					for _, nm := range []string{".", ".."} {
+						lk := doOp(srv.API, &Op{K: OpLookup, H: r.FH, Name: nm})
+						want := r.FH
+						if nm == ".." {
+							want = d
+						}
+						if lk.Stat != stOK || !bytes.Equal(lk.FH, want) {
+							viol("handle", "round %d: LOOKUP %s/%s (new directory on the reused number %d): status %d handle %x, want %x", round, name, nm, X, lk.Stat, lk.FH, want)
+							return objs
+						}
+					}
+					ls := doOp(srv.API, &Op{K: OpReaddir, H: r.FH, Count: 4096})
+					if ls.Stat != stOK || len(ls.Ents) != 2 {
+						viol("handle", "round %d: new directory %s on the reused number %d lists %d entries (status %d), want '.' and '..'", round, name, X, len(ls.Ents), ls.Stat)
+						return objs
+					}
+				}
+				if ci == len(cyc)-1 {
+					objs[vi] = obj{dir: v.dir, name: name, fh: r.FH, fileid: r.Fileid, kind: k}
+					break
+				}
+				rk := OpRemove
+				if k == OpMkdir {
+					rk = OpRmdir
+				}
+				if rr := doOp(srv.API, &Op{K: rk, H: d, Name: name}); rr.Stat != stOK {
+					viol("handle", "round %d: %s %s: status %d", round, rk, name, rr.Stat)
+					return objs
+				}
+				if g := doOp(srv.API, &Op{K: OpGetattr, H: r.FH}); g.Stat != stSTALE {
+					viol("handle", "round %d: GETATTR through the handle of the removed %s answers status %d, want NFS3ERR_STALE", round, name, g.Stat)
+					return objs
+				}
+			}
+			out.Counters["kind_cycles_on_the_only_free_inode_number"] += len(cyc)
+		}
 		return objs
 	}
 	removeAll := func(objs []obj) {
